@@ -1,5 +1,5 @@
 use super::{Attribute, CssSelectorSet, ElemType, Opt, Pseudo, SelectorSet};
-use crate::{ParseError, output::CssBuf, parser::input_span};
+use crate::{Invalid, ParseError, output::CssBuf, parser::input_span};
 use std::fmt;
 
 #[derive(Default, Clone, PartialEq, Eq)]
@@ -105,9 +105,16 @@ impl CompoundSelector {
             .retain(|p| !original.pseudo.iter().any(|o| p == o));
     }
 
-    pub(super) fn resolve_ref_in_pseudo(&mut self, ctx: &CssSelectorSet) {
-        self.pseudo =
-            self.pseudo.drain(..).map(|p| p.resolve_ref(ctx)).collect();
+    pub(super) fn resolve_ref_in_pseudo(
+        &mut self,
+        ctx: &CssSelectorSet,
+    ) -> Result<(), Invalid> {
+        self.pseudo = self
+            .pseudo
+            .drain(..)
+            .map(|p| p.resolve_ref(ctx))
+            .collect::<Result<_, _>>()?;
+        Ok(())
     }
 
     pub(super) fn replace_in_pseudo(
